@@ -24,8 +24,7 @@ Print Assumptions C09_each_edge_keeps_its_delay.
 Definition C09_full_statement : Prop :=
   forall c n, wf c = true -> g_delays_ge2 c = true -> impl_run c n = Ok (spec_run c n).
 
-(* ---- what holds: under the guards (Euler; non-vectorized: no two undelayed edges between one variable pair on a buffered
-        source; the sibling guard is trivially true since fix D70) it is a theorem, for any number of nodes, edges per
+(* ---- under the guards (of which only Euler and the two-step scope still restrict anything: see C09_full_euler below) it is a theorem, for any number of nodes, edges per
         source/target, delays and steps, both vectorize settings ---- *)
 Theorem C09_partial : forall c n, wf c = true -> guards c = true -> impl_run c n = Ok (spec_run c n).
 Proof. exact impl_refines_spec. Qed.
@@ -112,19 +111,27 @@ Theorem C09_sibling_guard_trivial : forall c, g_no_undelayed_sibling c = true.
 Proof. exact sibling_guard_trivial. Qed.
 Print Assumptions C09_sibling_guard_trivial.
 
-(* D18 (loud), what is left after D59/D68/D70: vectorize=False, two UNDELAYED edges between one variable pair on a buffered
-   source raise IndexError at the first call; the former witnesses (delayed + undelayed, two delays) now compile and are right *)
+(* D18, repaired in /repo (D59/D68/D70 and finally D94; model switch Ring.fixed_D18c = true): parallel edges between one variable
+   pair on a buffered source, vectorize=False, used to raise IndexError at the first call; the former witnesses are regression
+   cases (corpus/C09, the three D18 files) inside the guards *)
 Definition w_parallel := mkC dt8 false false [S1; T0]
   [mkEdge 0 1 (mkq 2 1) (Delay (mkq 3 8)); mkEdge 0 1 (mkq 1 1) NoKey].
 Definition w_parallel2 := mkC dt8 false false [S1; T0]
   [mkEdge 0 1 (mkq 2 1) (Delay (mkq 3 8)); mkEdge 0 1 (mkq 1 1) (Delay (mkq 5 8))].
 Definition w_parallel3 := mkC dt8 false false [S1; T0; T0]
   [mkEdge 0 1 (mkq 2 1) NoKey; mkEdge 0 1 (mkq 1 1) NoKey; mkEdge 0 2 (mkq 1 1) (Delay (mkq 3 8))].
-Theorem C09_refuted_parallel : wf w_parallel3 = true /\ g_delays_ge2 w_parallel3 = true /\
-  g_no_parallel_buffered w_parallel3 = false /\ impl_run w_parallel3 6 = ErrIndex /\
-  guards w_parallel = true /\ guards w_parallel2 = true.
-Proof. repeat split; vm_compute; reflexivity. Qed.
-Print Assumptions C09_refuted_parallel.
+Example C09_fixed_parallel : guards w_parallel = true /\ guards w_parallel2 = true /\ guards w_parallel3 = true /\
+  impl_run w_parallel3 6 = Ok (spec_run w_parallel3 6).
+Proof. repeat (split; [vm_compute; reflexivity|]). apply C09_partial; vm_compute; reflexivity. Qed.
+Print Assumptions C09_fixed_parallel.
+
+(* ---- the full statement up to D7: for EVERY well-formed circuit (any mixture of delayed and undelayed edges, several delays
+        per source and per target, parallel edges, `delay: None`), both vectorize settings, under Euler, with delays that round
+        to at least two steps, the compiled mechanism produces the trajectories of the delayed recurrence.  No other guard. ---- *)
+Theorem C09_full_euler : forall c n, wf c = true -> g_euler c = true -> g_delays_ge2 c = true ->
+  impl_run c n = Ok (spec_run c n).
+Proof. exact full_up_to_heun. Qed.
+Print Assumptions C09_full_euler.
 
 Theorem C09_full_refuted : ~ C09_full_statement.
 Proof.
